@@ -91,6 +91,7 @@ class Ctx:
         if gofasta:
             cmd = ["go", "build", "-tags", "verif", "-o", self.gofasta, "."]
             self._run_build(cmd, REPO, env)
+            self.gofasta_built = True
             if race:
                 e2 = dict(env)
                 e2["CGO_ENABLED"] = "1"
